@@ -123,7 +123,7 @@ def plain_json(o):
     return False
 
 
-def l151(shape):
+def l151(shape, maxsize=2):
     shape = tuple(shape)
     H = holder(shape)
     x = H()
@@ -131,8 +131,8 @@ def l151(shape):
     if shape[0] == 'leaf':
         x.f = fieldval(shape, 0)
     else:
-        size = choose(4, 'size')          # 0, 1, 2 elements or None
-        x.f = None if size == 3 else fieldval(shape, size)
+        size = choose(maxsize + 2, 'size')          # 0..maxsize elements or None
+        x.f = None if size == maxsize + 1 else fieldval(shape, size)
     try:
         j = x.toJson()
     except Exception as ex:
@@ -222,7 +222,7 @@ def replay_l151(cfg, m):
     size = ([v for kk, v in m.items() if kk.startswith('size')] or [0])[0]
     if k == 'leaf':
         x.f = leaf(shape[1], 'f')
-    elif size == 3:
+    elif size == cfg.get('maxsize', 2) + 1:
         x.f = None
     elif k == 'list':
         x.f = [leaf(shape[1], 'f%d' % i) for i in range(size)]
@@ -258,10 +258,10 @@ def replay_l151(cfg, m):
     return bad, 'shape %r: %r -> %r / %r' % (shape, x.f, y.f, z.f)
 
 
-R.add('L15.1', l151, lambda tier: [dict(shape=list(s)) for s in field_shapes()], replay=replay_l151,
+R.add('L15.1', l151, lambda tier: [dict(shape=list(s), maxsize=(2 if tier == 'quick' else 3)) for s in field_shapes()], replay=replay_l151,
       desc='fromJson(toJson(x)) and loads(dumps(x)) field-wise equal; toJson is plain JSON data',
       expect=['fromJson(toJson(x)) reproduces x', 'loads(dumps(x)) reproduces x', 'toJson produces plain JSON data'],
       bounds='annotation shapes: basic types, nested Serializable, enum, List/Set/Dict/Tuple of these with int/str/enum keys; '
-             'container sizes 0..2 and None')
+             'container sizes 0..2 (thorough 0..3) and None')
 
 get_harness = R.get_harness
